@@ -234,9 +234,27 @@ func strShape(v ssa.Value) []strPart {
 		// make([]byte, k) handed straight to the append: k zero octets
 		if x.Referrers() != nil {
 			n := 0
+			var cp *ssa.Call
 			for _, r := range *x.Referrers() {
 				if _, isDbg := r.(*ssa.DebugRef); !isDbg {
 					n++
+				}
+				if call, isCall := r.(*ssa.Call); isCall {
+					if bi, isB := call.Call.Value.(*ssa.Builtin); isB && bi.Name() == "copy" && call.Call.Args[0] == ssa.Value(x) {
+						cp = call
+					}
+				}
+			}
+			// padded := make([]byte, k); copy(padded, s): s followed by k-len(s) zero octets (the only write into the fresh slice;
+			// that len(s) <= k holds where the slot is written is what the #fit obligation establishes)
+			if bt, ok := x.Type().Underlying().(*types.Slice); ok && isByte(bt.Elem()) && n == 2 && cp != nil {
+				if prm, isP := cp.Call.Args[1].(*ssa.Parameter); isP {
+					if l, ok := ssaLin(x.Len); ok {
+						pl := newLin(0)
+						pl.terms["len("+prm.Name()+")"] = 1
+						z := l.add(pl, -1)
+						return []strPart{{param: prm}, {zeros: &z}}
+					}
 				}
 			}
 			if bt, ok := x.Type().Underlying().(*types.Slice); ok && isByte(bt.Elem()) && n == 1 {
